@@ -9,7 +9,7 @@ ENGINES = [
     {"name": "grammar-lalr", "path": "sa/grammar.py sa/lalr.py sa/lexmodel.py",
      "kind_free_text": "static extraction of the three sly grammars and lexers from source (ast) + own LALR(1) table "
                        "construction reproducing sly's conflict resolution; regex language / first-match model on re._parser"},
-    {"name": "pyflow", "path": "sa/source.py sa/cfg.py sa/peval.py sa/pymodel.py",
+    {"name": "pyflow", "path": "sa/source.py sa/cfg.py sa/peval.py sa/pymodel.py sa/interp.py sa/walker.py sa/shared.py sa/actions.py sa/codec.py",
      "kind_free_text": "Python model of the repository from ast: class/field/method index, structured-CFG forward dataflow, "
                        "partial evaluation of dispatch code, effect (write-set) and who-may-call scans"},
 ]
@@ -264,6 +264,21 @@ CLAIMS["C08"] = dict(
     note="One known finding (pinned by two existing tests): the kind of the last join is never inspected, so LIMIT/OFFSET go below "
          "an INNER JOIN. Not analysed: plan_union, plan_nested_select, api-db split, NULL keys in the IN semi-join.",
     technique="abstract interpretation of the planner's decision functions over finite fact spaces (truth tables) against reference pushdown conditions")
+
+CLAIMS["C14"] = dict(
+    level="other", engine="pyflow",
+    text="Decides the argument / filter split and the shape of the apply step, not the rows that reach the model: "
+         "process_predictor is interpreted on abstract stand-ins (fail-closed AST interpreter) over 4 to_predict forms x 65 "
+         "subsets of a family of model conditions (equality either side, parameter, inequality, BETWEEN, predict target) - the "
+         "row_dict holds exactly the equalities with a constant/parameter except the target, a condition is neutralised in the "
+         "outer query iff it was consumed, exactly one ApplyPredictorStep is built on the step on top of the stack with the "
+         "model's own namespace/identifier and pushed once; 10 USING forms (keys lower-cased, own alias stripped in any case, "
+         "others' options not taken, values untouched, partition_size removed and handed to the partition); "
+         "join_condition_to_columns_map on 7 ON shapes (only equality model-column/other-column maps, mapped conditions and "
+         "only those are removed from the join); alias attribution is case-insensitive; that only top-level WHERE conjuncts "
+         "are attributed at all is C08's table, re-run here.",
+    note="plan_predictor.split_filters is unreachable from from_query (dead code) and not analysed.",
+    technique="abstract interpretation of process_predictor / columns-map / attribution over finite condition and option families")
 
 NA_PENDING = "check under construction in this session; not claimed until its rule module is committed"
 
